@@ -19,6 +19,7 @@
 #include <src/Algorithms/GradientDescent/CG.cpp>
 #include <src/Algorithms/GradientDescent/Rprop.cpp>
 #include <src/Algorithms/DirectSearch/CMA.cpp>
+#include <src/Models/RBFLayer.cpp>
 
 using namespace shark;
 namespace {
